@@ -144,7 +144,7 @@ def classify(h: Harness, unit: Unit, res, profile) -> Outcome:
 class Runner:
     def __init__(self, pid, tier, seed, repo):
         self.pid, self.tier, self.seed, self.repo = pid, tier, seed, repo
-        self.work = os.path.join(VERIF, "work", pid)
+        self.work = os.path.join(E.WORK, pid)
         os.makedirs(self.work, exist_ok=True)
         self.t0 = time.time()
         self.src = os.path.join(self.work, "src")
@@ -382,7 +382,7 @@ class Runner:
             self.inconclusive.append("no negative control in this run")
 
         violations, knowns, unrepro = [], [], []
-        replay_dir = os.path.join(VERIF, "replays", pid)
+        replay_dir = os.path.join(E.OUT, "replays", pid)
         os.makedirs(replay_dir, exist_ok=True)
         for fn in os.listdir(replay_dir):
             if fn.startswith(self.tier + "_"):
@@ -527,8 +527,8 @@ class Runner:
             "wall_s": round(wall, 2),
             "violations": len(violations),
         }
-        os.makedirs(os.path.join(VERIF, "evidence"), exist_ok=True)
-        with open(os.path.join(VERIF, "evidence", f"{pid}.json"), "w") as fh:
+        os.makedirs(os.path.join(E.OUT, "evidence"), exist_ok=True)
+        with open(os.path.join(E.OUT, "evidence", f"{pid}.json"), "w") as fh:
             json.dump(ev, fh, indent=1, default=str)
         # ---- report --------------------------------------------------------------------------------
         seenk = set()
